@@ -67,11 +67,11 @@ fn multi_profile() -> Profile {
 pub fn strategy() -> BoxedStrategy<Case> {
     let p = tail_profile();
     (
-        1u16..=7,                                           // receive maximum = window of long-lived publishes
-        prop::collection::vec((1u8..3, any::<u8>()), 7),    // kinds of the window publishes
+        1u16..=12,                                          // receive maximum = window of long-lived publishes (the local limit is 8)
+        prop::collection::vec((1u8..3, any::<u8>()), 12),   // kinds of the window publishes
         0usize..3,                                          // extra subscribes in flight
         0usize..2,                                          // extra unsubscribes in flight
-        prop::collection::vec(any::<u16>(), 0..4),          // PUBREC some QoS 2 before the burn
+        prop::collection::vec(any::<u16>(), 0..11),         // PUBREC some QoS 2 before the burn
         -4i32..12,                                          // landing offset around the in-flight ids
         1u32..3,                                            // number of wraps
         prop::collection::vec(cgen::step(&p), 1..12),       // tail
